@@ -28,7 +28,10 @@ c03check = importlib.import_module("checks.C03")  # shares the harness, the syst
 THEOREMS = ["IstioModel.C05.Theorems", "IstioModel.C05.ReconnectTheorems", "IstioModel.C05.WauthTheorems", "IstioModel.C05.RegTheorems"]
 
 
-def warm(ctx):
+def c04_streams(ctx, streams):
+    """Streams of the C04 harness / driver that tie anchors of C05 as well: `warm` (EDS-before-CDS reconnect order) and
+    `recv` (the receive side: the first request of a stream - also after a health probe that arrives before it - must
+    initialise the connection)."""
     import checks.C04 as c04check
     rc, out = ctx.lake_build(["drv_c04"])
     drv = os.path.join(os.path.dirname(ctx.drv_path), "drv_c04")
@@ -40,18 +43,19 @@ def warm(ctx):
         if not ctx.go_build(pkg="c04", out_name="c05w"):
             return
         ctx.drv_path = drv
-        ctx.diff_stream("warm", ctx.n(600, 12000), oracle=c04check.oracle)
-        g = os.path.join(ctx.work, "warm.gen.ops")
-        if os.path.exists(g):
-            outp = g + ".verdict"
-            rc, log = ctx.harness("oracle", "warm", g, outp)
-            if rc == 0 and os.path.exists(outp):
-                vs = ctx.read_lines(outp)
-                ctx.count("oracle.warm.cases", len(vs))
-                if any(v.startswith("FAIL") for v in vs):
-                    found = c04check.oracle(ctx, "warm", ["case 0 warm"], None)
-                    if found:
-                        ctx.violation(found[0], found[1], found[2], True)
+        for stream, nq, nt in streams:
+            ctx.diff_stream(stream, ctx.n(nq, nt), oracle=c04check.oracle)
+            g = os.path.join(ctx.work, "%s.gen.ops" % stream)
+            if os.path.exists(g):
+                outp = g + ".verdict"
+                rc, log = ctx.harness("oracle", stream, g, outp)
+                if rc == 0 and os.path.exists(outp):
+                    vs = ctx.read_lines(outp)
+                    ctx.count("oracle.%s.cases" % stream, len(vs))
+                    if any(v.startswith("FAIL") for v in vs):
+                        found = c04check.oracle(ctx, stream, ["case 0 %s" % stream], None)
+                        if found:
+                            ctx.violation(found[0], found[1], found[2], True)
     finally:
         ctx.drv_path, ctx.bin_path = keep
 
@@ -96,13 +100,21 @@ def run(ctx):
     # clause "a response to every re-sent subscription so that nothing stays warming": the scripted reconnect order
     # EDS-before-CDS with a changed cluster set on the real ShouldRespond/Send/NewWatchedResource (harness c04, stream
     # `warm`), against the C04 model (theorem eds_after_cds_answered_any_names) and the clause oracle
-    warm(ctx)
+    # + the receive side (harness c04, stream `recv`): the real Receive / receiveDelta with scripted first requests,
+    # among them a HealthInformation probe BEFORE the first xDS request (a VM proxy with health checks): the next
+    # request must still initialise the connection
+    c04_streams(ctx, [("warm", 600, 12000), ("recv", 300, 3000)])
     # the statement itself on the REAL generators (harness/e2e): cuts at every kind of point, changes while away,
     # reconnect to the same or a second server with the retained state; and the registration window of initConnection
     # (+ reconnects that overlap the not yet terminated old stream, changes after the reconnect)
-    e2e_common.run(ctx, "c05", ctx.n(20, 400))
+    # round 3: health probe first, reconnect into a non-quiescent server, a second fault during the resync, first request =
+    # queued NACK, NDS / ECDS compared, stream dead before any response, push slots free after a cut, fresh watch table;
+    # ztunnel flavour with initial cut / overlap / changes afterwards / retained nonce; 23 corpus cases (every first type
+    # x with/without the old nonce)
+    e2e_common.run(ctx, "c05", ctx.n(24, 400))
     # initConnection parked inside the registration window, Push parked between / after its two halves while a whole
     # connection initialises, and a proxy meeting an instance that is still starting (not ready / context never initialised)
+    # (+ the gated client may be a RECONNECTING one that retained state; admission refusals: rate limit, ztunnel without ambient)
     e2e_common.run(ctx, "initrace", ctx.n(14, 120))
 
 
@@ -111,9 +123,9 @@ def replay(ctx, path):
     rep = json.load(open(path)).get("replay", {})
     if e2e_common.is_e2e_replay(rep):
         return e2e_common.replay(ctx, rep)
-    if rep.get("stream") == "warm":
+    if rep.get("stream") in ("warm", "recv"):
         import checks.C04 as c04check
-        ctx.lc = "c04"  # the warm stream runs on the C04 harness and driver
+        ctx.lc = "c04"  # these streams run on the C04 harness and driver
         try:
             return c04check.replay(ctx, path)
         finally:
